@@ -1349,6 +1349,28 @@ fire("c15-logsumexp-shift-repaired-only-if-all-infinite", "C15", ARRAY,
 silent("c15-s-logsumexp-shift-repaired-via-mask-local", "C15", ARRAY,
        "    amax = np.where(np.isfinite(amax), amax, 0.0)\n", "    finite = np.isfinite(amax)\n    amax = np.where(finite, amax, 0.0)\n")
 
+# ---- C19 (claimed since round 7)
+fire("c19-tensor-align-inverse-permutation", "C19", TENSOR,
+     "        permutation = tuple(old_dims.index(d) for d in new_dims)\n", "        permutation = tuple(new_dims.index(d) for d in old_dims)\n", "R19.1", "Tensor.align")
+silent("c19-s-tensor-align-permutation-as-list", "C19", TENSOR,
+       "        permutation = tuple(old_dims.index(d) for d in new_dims)\n", "        layout = list(self.inputs)\n        permutation = tuple([layout.index(d) for d in new_dims])\n")
+fire("c19-align-tensor-permutes-from-sorted-keys", "C19", TENSOR,
+     "    x_keys = tuple(old_inputs)\n", "    x_keys = tuple(sorted(old_inputs))\n", "R19.1", "align_tensor")
+fire("c19-aligned-inputs-drop-the-rest", "C19", TENSOR,
+     "        inputs = OrderedDict((name, self.inputs[name]) for name in names)\n        inputs.update(self.inputs)\n        old_dims",
+     "        inputs = OrderedDict((name, self.inputs[name]) for name in names)\n        old_dims", "R19.2", "Tensor.align")
+fire("c19-align-term-inputs-only-own-order", "C19", TERMS,
+     "        inputs = OrderedDict((name, arg.inputs[name]) for name in names)\n        inputs.update(arg.inputs)\n        output = arg.output\n        fresh = frozenset()  # TODO",
+     "        inputs = OrderedDict(arg.inputs)\n        output = arg.output\n        fresh = frozenset()  # TODO", "R19.2", "Align.__init__")
+fire("c19-pack-key-off-by-one", "C19", TENSOR,
+     "            name = dim_to_name.get(dim + len(output.shape) - len(x.shape), None)\n", "            name = dim_to_name.get(dim + len(output.shape) - len(x.shape) - 1, None)\n", "R19.3", "tensor_to_funsor")
+silent("c19-s-pack-key-regrouped", "C19", TENSOR,
+       "            name = dim_to_name.get(dim + len(output.shape) - len(x.shape), None)\n", "            name = dim_to_name.get(dim - (len(x.shape) - len(output.shape)), None)\n")
+fire("c19-unpack-batch-shape-from-count", "C19", TENSOR,
+     "        batch_shape = [1] * -min(dims)\n", "        batch_shape = [1] * len(dims)\n", "R19.3", "tensor_to_data")
+fire("c19-materialize-skips-after-first", "C19", TENSOR,
+     "                subs.append((name, self.new_arange(name, domain.dtype)))\n", "                subs.append((name, self.new_arange(name, domain.dtype)))\n                break\n", "R19.4", "Tensor.materialize")
+
 # ===== derived variants: must stay at the END of this file (they enumerate every rename() variant above) =====
 # `if c: A else: B` -> `if not c: B else: A` in the anchor functions (behaviour-preserving)
 def invert(prop, file, qual):
